@@ -200,6 +200,17 @@ namespace _ST_PRIVATE
         format_numeric_string(format, output, formatter.text(), formatter.size(), ntype);
     }
 
+    // Maps any value outside of the Unicode range (including negative values
+    // and those which don't fit in an int) to -1, which format_char() renders
+    // as the replacement character, rather than silently truncating it.
+    template <typename int_T>
+    ST_NODISCARD
+    inline int char_format_value(int_T value)
+    {
+        return (static_cast<unsigned long long>(value) <= 0x10FFFFu)
+               ? static_cast<int>(value) : -1;
+    }
+
     inline void format_char(const ST::format_spec &format,
                             ST::format_writer &output, int ch)
     {
